@@ -116,6 +116,6 @@ PROPS["C13"] = dict(
           "return it (presence flag only)."),
     assumptions=["carquet models names as C strings, so generated names contain no NUL byte",
                  "fields carquet's writer omits by its own rules (type_length <= 0, zero-length min/max, num_children == 0, scale/precision == 0, column key/value metadata, encoding_stats, is_*_exact) are compared as absent on the write path"],
-    engines=[pbt("c13_thrift", quick=dict(cases=5000, size=60, procs=4), thorough=dict(cases=30000, size=100, procs=16))],
-    min_evaluations=dict(quick=10000, thorough=200000),
+    engines=[pbt("c13_thrift", quick=dict(cases=1500, size=40, procs=8), thorough=dict(cases=30000, size=100, procs=16))],
+    min_evaluations=dict(quick=8000, thorough=200000),
 )
